@@ -62,7 +62,18 @@ func Unbalanced(ts []xml.Token) bool {
 func isWS(s string) bool { return strings.Trim(s, " \t\r\n") == "" }
 
 // streamLevel classifies a token that must never reach a handler ("" = ordinary).
-func streamLevel(t xml.Token) string {
+func streamLevel(t xml.Token) string { return streamLevelWS(t, false) }
+
+// streamLevelWS is streamLevel on a session with the WebSocket flag ws: there the framing
+// elements are stream-level too: <close/> is the peer's closing element, any other element of
+// the framing namespace (<open/>) a stream restart (RFC 7395 3.4, 3.6).
+func streamLevelWS(t xml.Token, ws bool) string {
+	if st, ok := t.(xml.StartElement); ok && ws && st.Name.Space == NSFraming {
+		if st.Name.Local == "close" {
+			return "close"
+		}
+		return "restart"
+	}
 	switch tt := t.(type) {
 	case xml.Comment:
 		return "comment"
@@ -141,12 +152,14 @@ type expectation struct {
 	end   string // clean | decoder | chardata | comment | … | se (received stream error) | bad-state
 }
 
-func expect(toks []xml.Token) expectation {
+func expect(toks []xml.Token) expectation { return expectWS(toks, false) }
+
+func expectWS(toks []xml.Token, ws bool) expectation {
 	var ex expectation
 	i := 0
 	for i < len(toks) {
 		t := toks[i]
-		if c := streamLevel(t); c != "" {
+		if c := streamLevelWS(t, ws); c != "" {
 			if c == "close" {
 				ex.end = "clean"
 			} else {
@@ -170,8 +183,15 @@ func expect(toks []xml.Token) expectation {
 			j := i + 1
 			closed := false
 			for ; j < len(toks); j++ {
-				if c := streamLevel(toks[j]); c != "" {
+				if c := streamLevelWS(toks[j], ws); c != "" {
 					e.dirty = endClass(c, toks, j)
+					if c == "close" {
+						// only a top-level <close/> is the peer's closing element; inside another
+						// element it is as out of place as any other framing element: the
+						// handler's view must end with an error there (not with an early end of
+						// the element) and the session with it
+						e.dirty = "restart"
+					}
 					break
 				}
 				e.body = append(e.body, toks[j])
@@ -245,12 +265,21 @@ type Pend struct {
 	ID    string
 	Name  xml.Name
 	Reads int
+	// Fate: "" = the call is still waiting when the input is served; "f" = its transmission
+	// failed (the context had ended before it started writing) and the call returned the error;
+	// "g" = the request went out and the caller gave up waiting (its context ended) before the
+	// input is served.  In both cases nobody waits for a response any more.
+	Fate string
 }
 
 func encPends(ps []Pend) (string, string) {
 	var pf, rf []string
 	for _, p := range ps {
-		pf = append(pf, fmt.Sprintf("%x=%x=%x", p.ID, p.Name.Space, p.Name.Local))
+		x := fmt.Sprintf("%x=%x=%x", p.ID, p.Name.Space, p.Name.Local)
+		if p.Fate != "" {
+			x += "=" + p.Fate
+		}
+		pf = append(pf, x)
 		rf = append(rf, fmt.Sprint(p.Reads))
 	}
 	return common.Join(pf, ","), common.Join(rf, ",")
@@ -264,13 +293,16 @@ func decPends(pd, rd string) []Pend {
 	reads := strings.Split(rd, ",")
 	for i, x := range strings.Split(pd, ",") {
 		f := strings.Split(x, "=")
-		if len(f) != 3 {
+		if len(f) != 3 && len(f) != 4 {
 			continue
 		}
 		a, _ := unhexF(f[0])
 		b, _ := unhexF(f[1])
 		d, _ := unhexF(f[2])
 		p := Pend{ID: a, Name: xml.Name{Space: b, Local: d}, Reads: -1}
+		if len(f) == 4 {
+			p.Fate = f[3]
+		}
 		if i < len(reads) {
 			fmt.Sscanf(reads[i], "%d", &p.Reads)
 		}
@@ -293,12 +325,42 @@ func startPends(pends []Pend, delivered *[]string, mu *sync.Mutex) func(s *xmpp.
 		cctx, cancel := context.WithCancel(context.Background())
 		for _, p := range pends {
 			p := p
+			st := xml.StartElement{Name: p.Name, Attr: []xml.Attr{{Name: name("type"), Value: "get"}, {Name: name("id"), Value: p.ID}, {Name: name("to"), Value: "peer@example.net"}}}
+			q := xml.StartElement{Name: xml.Name{Space: "urn:q", Local: "q"}}
+			switch p.Fate {
+			case "f":
+				// the transmission fails: the context has ended before the call starts writing
+				dead, kill := context.WithCancel(context.Background())
+				kill()
+				if resp, err := s.SendIQ(dead, xmlstream.Wrap(xmlstream.Wrap(nil, q), st)); err == nil && resp != nil {
+					resp.Close()
+				}
+				continue
+			case "g":
+				// the request goes out, then the caller's context ends: the call returns
+				gctx, giveUp := context.WithCancel(context.Background())
+				want := out.Len()
+				ret := make(chan struct{})
+				go func() {
+					defer close(ret)
+					if resp, err := s.SendIQ(gctx, xmlstream.Wrap(xmlstream.Wrap(nil, q), st)); err == nil && resp != nil {
+						resp.Close()
+					}
+				}()
+				for i := 0; i < 5000 && out.Len() == want; i++ {
+					time.Sleep(200 * time.Microsecond)
+				}
+				giveUp()
+				select {
+				case <-ret:
+				case <-time.After(5 * time.Second):
+				}
+				continue
+			}
 			wg.Add(1)
 			want := out.Len()
 			go func() {
 				defer wg.Done()
-				st := xml.StartElement{Name: p.Name, Attr: []xml.Attr{{Name: name("type"), Value: "get"}, {Name: name("id"), Value: p.ID}, {Name: name("to"), Value: "peer@example.net"}}}
-				q := xml.StartElement{Name: xml.Name{Space: "urn:q", Local: "q"}}
 				resp, err := s.SendIQ(cctx, xmlstream.Wrap(xmlstream.Wrap(nil, q), st))
 				if err != nil || resp == nil {
 					return
@@ -329,8 +391,9 @@ func (c *ctx) checkO(co caseOpt, ns string, body []byte, progs []Prog, class str
 	r := c.r
 	local, remote := addrs(ns)
 	toks := Tokens(ns, body)
-	anyClose := closed0
-	partial := false
+	ws := co.opt.WS
+	anyClose := closed0 || co.opt.PreBroken
+	partial := co.opt.PreBroken
 	for _, p := range progs {
 		anyClose = anyClose || p.Close || p.Dls() != ""
 		var w []xml.Token
@@ -355,6 +418,9 @@ func (c *ctx) checkO(co caseOpt, ns string, body []byte, progs []Prog, class str
 	line := CaseLine(ns, res.LocalBare, toks, progs)
 	if anyClose {
 		cf := common.B(closed0)
+		if co.opt.PreBroken && !closed0 {
+			cf = "2"
+		}
 		if co.opt.PreDl != "" {
 			cf += "d" + co.opt.PreDl
 		}
@@ -364,8 +430,20 @@ func (c *ctx) checkO(co caseOpt, ns string, body []byte, progs []Prog, class str
 	if len(co.pends) > 0 {
 		line = strings.Join([]string{"servepw", NsField(ns), common.HexS(res.LocalBare), JidMap(toks), pd, rd, common.EncToks(toks), EncProgs(progs)}, " ")
 	}
+	line = MarkWS(line, ws)
 	lines := []string{r.Prop + " " + line, "#body " + common.Hex(body), "#opts " + co.opt.Enc() + " " + pd + " " + rd}
 	els, closed, werr := Written(ns, res.Out)
+	if co.opt.PreBroken {
+		// the start tag of the abandoned transmission sat in the encoder's buffer and reaches the
+		// wire with the next flush: it is not something Serve wrote
+		var kept []Elem
+		for _, e := range els {
+			if e.ID != "abandoned" {
+				kept = append(kept, e)
+			}
+		}
+		els = kept
+	}
 	closed = closed || closed0
 	wobs, cond := WrittenObs(els)
 	cls := ErrClass(res.Err)
@@ -390,11 +468,18 @@ func (c *ctx) checkO(co caseOpt, ns string, body []byte, progs []Prog, class str
 	} else {
 		r.Line(line, fmt.Sprintf("%s %s %s", EncInvs(res.Invs), wobs, cls))
 	}
-	ex := expect(toks)
+	ex := expectWS(toks, ws)
 	// responses that belong to a pending local request go to its waiter, not to the handler:
 	// the first top-level element of type result/error whose id is that of a request still
 	// pending and whose name is the request's (or the request's was unqualified)
-	table := append([]Pend(nil), co.pends...)
+	// (a request whose transmission failed or whose caller gave up waiting is not pending: a
+	// response that carries its id is handled like any other element)
+	var table []Pend
+	for _, p := range co.pends {
+		if p.Fate == "" {
+			table = append(table, p)
+		}
+	}
 	var toWaiter []bool
 	for _, e := range ex.elems {
 		typ, id := attrVal(e.start.Attr, "type"), attrVal(e.start.Attr, "id")
@@ -437,6 +522,9 @@ func (c *ctx) checkO(co caseOpt, ns string, body []byte, progs []Prog, class str
 	wantN := len(handled)
 	wantEnd := ex.end
 	st := "open"
+	if co.opt.PreBroken {
+		st = "broken"
+	}
 	if closed0 {
 		st = "closed"
 	}
@@ -532,7 +620,7 @@ func (c *ctx) checkO(co caseOpt, ns string, body []byte, progs []Prog, class str
 		}
 		// nothing stream-level is ever visible
 		for _, t := range inv.Toks {
-			if c := streamLevel(t); c != "" {
+			if c := streamLevelWS(t, ws); c != "" {
 				fail("stream-level-hidden", "visible/"+c, fmt.Sprintf("invocation %d saw %s", k, common.EncTok(t)))
 			}
 		}
@@ -706,6 +794,9 @@ var factKinds = []struct{ name, xml string }{
 	{"close", `</stream:stream>`},
 	{"framing-open", `<open xmlns="` + NSFraming + `"/>`},
 	{"framing-close", `<close xmlns="` + NSFraming + `"/>`},
+	{"framing-other", `<stream xmlns="` + NSFraming + `"/>`},
+	{"framing-close-attrs", `<f:close xmlns:f="` + NSFraming + `" see-other-uri="wss://o.example/"/>`},
+	{"close-other-ns", `<close xmlns="urn:other"/>`},
 	// received stream errors that carry an application-specific condition (RFC 6120 4.9.4)
 	{"se-app-after", `<stream:error><conflict xmlns="` + NSStreams + `"/><replaced-by-new-login xmlns="urn:example"/></stream:error>`},
 	{"se-app-first", `<stream:error><app xmlns="urn:example"><detail>x</detail></app><host-gone xmlns="` + NSStreams + `"/></stream:error>`},
@@ -719,8 +810,26 @@ var factKinds = []struct{ name, xml string }{
 // depth 0/1/2 of an established stream, and real negotiations on kind-before-header, and
 // renders the observed verdicts.
 func verdictFacts() string {
-	var rows []string
-	ok := true
+	rows, ok := verdictGrid(false)
+	wrows, wok := verdictGrid(true)
+	var sb strings.Builder
+	if !ok {
+		sb.WriteString("def readerVerdicts : Option (List (String × Nat × String)) := none\n")
+	} else {
+		sb.WriteString("/-- verdict of the real stream reader on an established stream for every token kind at nesting\ndepth 0, 1, 2 (observed through real sessions) -/\ndef readerVerdicts : Option (List (String × Nat × String)) := some [\n  " + strings.Join(rows, ",\n  ") + "]\n")
+	}
+	if !wok {
+		sb.WriteString("\ndef readerVerdictsWs : Option (List (String × Nat × String)) := none\n")
+	} else {
+		sb.WriteString("\n/-- the same grid on sessions that use the WebSocket subprotocol -/\ndef readerVerdictsWs : Option (List (String × Nat × String)) := some [\n  " + strings.Join(wrows, ",\n  ") + "]\n")
+	}
+	sb.WriteString(headerFacts())
+	return sb.String()
+}
+
+// verdictGrid is the grid token kind x depth of verdictFacts on sessions with the WebSocket flag ws.
+func verdictGrid(ws bool) (rows []string, ok bool) {
+	ok = true
 	for _, k := range factKinds {
 		for depth := 0; depth <= 2; depth++ {
 			if k.name == "close" && depth > 0 {
@@ -738,7 +847,7 @@ func verdictFacts() string {
 			// the handler of the wrapping element reads through the token under test and
 			// ignores errors; at depth 0 there is no wrapping element
 			progs := []Prog{progReads(depth+2, "ok"), progReads(0, "ok"), progReads(0, "ok")}
-			res := Serve(NSClient, LocalJID, RemoteJID, []byte(body), progs, nil)
+			res := ServeOpt(Opts{FailAfter: -1, WS: ws}, NSClient, LocalJID, RemoteJID, []byte(body), progs, nil, nil)
 			v := ""
 			cls := ErrClass(res.Err)
 			switch {
@@ -771,13 +880,12 @@ func verdictFacts() string {
 			rows = append(rows, fmt.Sprintf("(%q, %d, %q)", k.name, depth, v))
 		}
 	}
+	return rows, ok
+}
+
+// headerFacts: while a stream header is expected (negotiating): what may precede the header
+func headerFacts() string {
 	var sb strings.Builder
-	if !ok {
-		sb.WriteString("def readerVerdicts : Option (List (String × Nat × String)) := none\n")
-	} else {
-		sb.WriteString("/-- verdict of the real stream reader on an established stream for every token kind at nesting\ndepth 0, 1, 2 (observed through real sessions) -/\ndef readerVerdicts : Option (List (String × Nat × String)) := some [\n  " + strings.Join(rows, ",\n  ") + "]\n")
-	}
-	// while a stream header is expected (negotiating): what may precede the header
 	var hrows []string
 	neg := xmpp.NewNegotiator(func(*xmpp.Session, *xmpp.StreamConfig) xmpp.StreamConfig { return xmpp.StreamConfig{} })
 	hdr := `<stream:stream xmlns="jabber:client" xmlns:stream="` + NSStream + `" version="1.0" to="example.com">`
@@ -1328,6 +1436,84 @@ func Run(r *common.Run) error {
 		c.checkO(caseOpt{opt: Opts{FailAfter: -1}, pends: two[:1]}, ns, []byte(`<iq type="result" id="p1"><query xmlns="urn:q"><item/><!--c--><item/></query></iq>`+followers[0]+"</stream:stream>"), nil, "pending")
 	}
 
+
+	// sessions that use the WebSocket subprotocol (RFC 7395): the framing elements are stream
+	// level there -- <close/> is the peer's closing element, <open/> (any other framing element)
+	// a stream restart, at top level and inside elements -- everything else is as on TCP
+	wsItems := []string{
+		" ",
+		`<message id="m1"><body>hi</body></message>`,
+		`<iq type="get" id="g1"><q xmlns="urn:q"/></iq>`,
+		`<x xmlns="urn:x"><y><z/>text</y><y/></x>`,
+		`<open xmlns="` + NSFraming + `" to="example.com" version="1.0"/>`,
+		`<close xmlns="` + NSFraming + `"/>`,
+		`<close xmlns="` + NSFraming + `" see-other-uri="wss://other.example/"></close>`,
+		`<stream xmlns="` + NSFraming + `"/>`,
+		`<message id="m6"><fwd xmlns="urn:f"><close xmlns="` + NSFraming + `"/></fwd><body/></message>`,
+		`<message id="m7"><open xmlns="` + NSFraming + `"/><body/></message>`,
+		`<f:close xmlns:f="` + NSFraming + `"/>`,
+		`<close xmlns="urn:other"/>`,
+		`<!--top-->`,
+		`<stream:error><host-gone xmlns="urn:ietf:params:xml:ns:xmpp-streams"/></stream:error>`,
+		`</stream:stream>`,
+		`junk`,
+	}
+	wsOpt := caseOpt{opt: Opts{FailAfter: -1, WS: true}}
+	for _, ns := range []string{NSClient, NSServer} {
+		for i, a := range append([]string{""}, wsItems...) {
+			for j, b := range wsItems {
+				if ns == NSServer && (i+j)%3 != 0 {
+					continue
+				}
+				for _, tail := range []string{`<close xmlns="` + NSFraming + `"/>`, ""} {
+					for pi, ps := range patterns {
+						if r.Quick() && pi == 1 && (i+j)%2 == 0 {
+							continue
+						}
+						c.checkO(wsOpt, ns, []byte(a+b+tail), ps, "websocket")
+					}
+				}
+			}
+		}
+	}
+	for _, it := range topItems {
+		for _, pre := range []string{"", `<message id="o1"><body>hi</body></message>`} {
+			c.checkO(wsOpt, NSClient, []byte(pre+it+`<presence/><close xmlns="`+NSFraming+`"/>`), patterns[2], "websocket-items")
+		}
+	}
+	r.Exhaustive = append(r.Exhaustive, fmt.Sprintf("WebSocket sessions: all sequences of <= 2 items out of %d (framing open / close / other at depth 0-2, prefixed, look-alikes in other namespaces, ordinary elements, constructs) x closed by <close/> or not x consumption patterns, and every item of the TCP alphabet", len(wsItems)))
+
+	// requests that expect a response and are over when the input is served: the transmission
+	// failed, or the caller gave up waiting.  Nobody waits any more: a response with that id is
+	// an element like any other and goes to the handler, in arrival order
+	for _, ns := range []string{NSClient, NSServer} {
+		for _, fate := range []string{"f", "g"} {
+			for ri, resp := range responses {
+				for fi, fol := range followers {
+					for pi, pn := range []xml.Name{{Local: "iq"}, {Space: ns, Local: "iq"}} {
+						if ns == NSServer && (ri+fi+pi)%2 != 0 {
+							continue
+						}
+						ps := []Prog{progReads(2, "ok"), progReads(40, "ok"), progReads(0, "ok"), progReads(1, "ok")}
+						c.checkO(caseOpt{opt: Opts{FailAfter: -1}, pends: []Pend{{ID: "p1", Name: pn, Reads: -1, Fate: fate}}}, ns, []byte(`<message id="pre"/>`+resp+fol+"</stream:stream>"), ps, "request-over")
+						// another request is still waiting
+						c.checkO(caseOpt{opt: Opts{FailAfter: -1}, pends: []Pend{{ID: "p2", Name: name("iq"), Reads: 2}, {ID: "p1", Name: pn, Reads: -1, Fate: fate}}}, ns,
+							[]byte(resp+strings.ReplaceAll(responses[0], "p1", "p2")+fol+"</stream:stream>"), ps, "request-over")
+					}
+				}
+			}
+		}
+	}
+
+	// the output was left inside an element by an abandoned Send before Serve starts: what the
+	// peer sends is served as ever, only an element that needs a reply ends the session
+	for _, it := range topItems {
+		for _, pre := range []string{"", `<message id="o1"><body>hi</body></message>`, `<iq type="get" id="o3"><q xmlns="urn:q"/></iq>`} {
+			for _, tail := range []string{"</stream:stream>", ""} {
+				c.checkO(caseOpt{opt: Opts{FailAfter: -1, PreBroken: true}}, NSClient, []byte(pre+it+tail), patterns[1], "broken-before")
+			}
+		}
+	}
 	// random
 	rnd := r.Rnd
 	n := r.Pick(2500, 40000)
@@ -1358,6 +1544,13 @@ func Run(r *common.Run) error {
 		co := caseOpt{closed0: rnd.Chance(1, 16), opt: Opts{FailAfter: -1}}
 		if rnd.Chance(1, 20) {
 			co.opt.PreDl = []string{"1", "2", "21", "12", "121"}[rnd.Intn(5)]
+		}
+		if rnd.Chance(1, 6) {
+			co.opt.WS = true
+			body = strings.ReplaceAll(body, "</stream:stream>", `<close xmlns="`+NSFraming+`"/>`)
+		}
+		if rnd.Chance(1, 24) && !co.closed0 {
+			co.opt.PreBroken = true
 		}
 		if rnd.Chance(1, 8) {
 			na := []string{"bound@example.org/r2", "me@example.com/x", "example.org", "b2@example.com"}[rnd.Intn(4)]
@@ -1392,7 +1585,7 @@ func Run(r *common.Run) error {
 			if rnd.Chance(1, 3) {
 				pn = xml.Name{Space: []string{NSClient, NSServer}[rnd.Intn(2)], Local: "iq"}
 			}
-			pends = append(pends, Pend{ID: id, Name: pn, Reads: rnd.Intn(8) - 1})
+			pends = append(pends, Pend{ID: id, Name: pn, Reads: rnd.Intn(8) - 1, Fate: []string{"", "", "", "f", "g"}[rnd.Intn(5)]})
 		}
 		c.checkO(caseOpt{opt: Opts{FailAfter: -1}, pends: pends}, ns, []byte(body), ps, "random-pending")
 	}
@@ -1429,7 +1622,7 @@ func (c *ctx) replay(lines []string) error {
 			continue
 		}
 		ns := NSClient
-		if g[2] == "s" {
+		if strings.HasPrefix(g[2], "s") {
 			ns = NSServer
 		}
 		progs, err := DecProgs(g[6])
